@@ -125,15 +125,6 @@ def r2_tokenizer(facts, rep):
     # use sites
     lb = anchor(rep, "C14-R2", facts, "db::Db::load_bytes")
     lk = anchor(rep, "C14-R2", facts, "db::Db::lookup")
-    if lb is not None:
-        for cal, want in (("tantivy::Document::add_text", "field_name"), ("tantivy::Document::add_bytes", "field_data")):
-            sites = flow.calls_named(lb, lambda n, c=cal: n == c)
-            rep.floor("C14-R2", cal + " in load_bytes", len(sites), 1)
-            for bid, t, sp, name in sites:
-                ls = flow.slice_back(lb, t["args"][1])
-                fields = {l[2] for l in ls if l[0] == "param" and l[1] == 1}
-                rep.ob("C14-R2", "load_bytes:%s" % cal.split("::")[-1], fields == {(want,)},
-                       "%s is given self.%s" % (cal, sorted(fields)), lb.site(sp))
     if lk is not None:
         reads = {}
         for b, i, s in lk.stmts():
@@ -158,72 +149,55 @@ def r2_tokenizer(facts, rep):
 
 
 def r3_loop(facts, rep):
-    rep.rule("C14-R3", "the insertion loop iterates Config::assets() and the only guards that skip load_bytes are "
-                       "the comparison with the sources asset name and the asset lookup itself")
-    body = anchor(rep, "C14-R3", facts, "db::Db::open_inner")
-    if body is None:
+    rep.rule("C14-R3", "every shipped asset is indexed, in asset order: in the session summary of Db::open_inner (two symbolic "
+                       "assets, helpers followed; shared with C15-R6) every successfully built session loads asset i exactly once "
+                       "unless its name was compared equal to the sources asset or the asset lookup returned None, and the loads "
+                       "happen in the order of Config::assets()")
+    from . import c15
+    if anchor(rep, "C14-R3", facts, "db::Db::open_inner") is None:
         return
-    cfg = body.cfg
-    loads = flow.calls_named(body, lambda n: n == "db::Db::load_bytes")
-    rep.floor("C14-R3", "load_bytes calls in open_inner", len(loads), 1)
     src_name = facts.const("db::SOURCES_BIN_GZ")
-    for lbid, lt, lsp, _ in loads:
-        # the loop head: a next() call that dominates the load and is reachable from it
-        heads = [(bid, t) for bid, t, sp, name in flow.calls_named(body, lambda n: n.endswith("as std::iter::Iterator>::next"))
-                 if cfg.dominates(bid, lbid) and bid in cfg.reachable_after(lbid)]
-        if not rep.ob("C14-R3", "loop-head", len(heads) == 1, "load_bytes sits in %d iterator loop(s)" % len(heads), body.site(lsp)):
+    n_paths = 0
+    n_loads = 0
+    bad = []
+    for in_memory in (True, False):
+        try:
+            dom, it, body, outs = c15.open_inner_summary(facts, in_memory)
+        except Exception as e:  # Undecided and friends
+            bad.append("undecided: %s" % e)
             continue
-        hb, ht = heads[0]
-        leaves = flow.slice_back(body, ht["args"][0])
-        calls = {l[1] for l in leaves if l[0] == "call"}
-        rep.ob("C14-R3", "iterates-assets", "config::Config::assets" in calls,
-               "the loop iterates %s" % sorted(calls), body.site(body.blocks[hb]["term"]["span"]),
-               sample={"iterator": sorted(calls)})
-        e = flow.ok_edge_generic(body, hb, 1)
-        if not rep.ob("C14-R3", "some-edge", e is not None, "Some-edge of the loop's next() found", body.site()):
-            continue
-        sw, some_t, _ = e
-        region = cfg.reachable_from(some_t, avoid={hb, lbid})
-        n_guards = 0
-        for x in sorted(region):
-            t = body.blocks[x]["term"]["t"]
-            if t["k"] != "switch":
+        for o in outs:
+            if o.kind != "ret":
                 continue
-            if lbid not in cfg.reachable_from(x, avoid={hb}):
+            log = dom.log(o.store)
+            labels = [e[0] for e in log]
+            if "fail" in labels or "commit" not in labels:
                 continue
-            skipping = [s for s in cfg.succ[x] if lbid not in cfg.reachable_from(s, avoid={hb})]
-            if not skipping:
+            n_paths += 1
+            pc = dom.pc(o.store)
+            loaded = []
+            for e in log:
+                if e[0] == "load":
+                    txt = repr(e[-1])
+                    idx = [i for i in (0, 1) if "asset%d" % i in txt]
+                    loaded.append(idx[0] if len(idx) == 1 and "get_asset" in txt else None)
+            n_loads += len(loaded)
+            if None in loaded:
+                bad.append("load_bytes is given something that is not the looked-up content of one asset")
                 continue
-            # only edges that go on to the next iteration are skips (error returns are not)
-            skipping = [s for s in skipping if hb in cfg.reachable_from(s)]
-            if not skipping:
-                continue
-            n_guards += 1
-            ls = flow.slice_back(body, t["discr"])
-            kinds = set()
-            for l in ls:
-                if l[0] == "call" and "PartialEq" in l[1] and l[1].endswith("::eq"):
-                    ct = body.blocks[l[2]]["term"]["t"]
-                    consts = set()
-                    for a in ct["args"]:
-                        for l2 in flow.slice_back(body, a, facts=facts):
-                            if l2[0] == "const":
-                                consts.add(l2[1])
-                    kinds.add("eq-sources" if src_name in consts else "eq-other:%s" % sorted(map(str, consts)))
-                elif l[0] == "discr":
-                    # discriminant of what?
-                    for s in body.blocks[l[1]]["stmts"]:
-                        if s["k"] == "assign" and s["rv"]["k"] == "discr":
-                            for l2 in flow.slice_back(body, {"k": "copy", "place": s["rv"]["place"]}):
-                                if l2[0] == "call":
-                                    kinds.add("discr-of:" + l2[1])
-                else:
-                    kinds.add(str(l[0]))
-            okk = kinds <= {"eq-sources", "discr-of:config::Config::get_asset"} and kinds
-            rep.ob("C14-R3", "skip-guard#%d" % n_guards, bool(okk),
-                   "a guard that can skip indexing an asset tests %s" % sorted(kinds),
-                   body.site(body.blocks[x]["term"]["span"]), sample={"guard": sorted(kinds)})
-        rep.floor("C14-R3", "skip guards", n_guards, 1)
+            if loaded != sorted(loaded) or len(set(loaded)) != len(loaded):
+                bad.append("assets are loaded in the order %s" % loaded)
+            for i in (0, 1):
+                is_src = c15.compared_equal([(p_, b_) for p_, b_ in pc if "asset%d" % i in repr(p_)], "asset%d" % i, str(src_name))
+                missing = any("get_asset" in repr(p_) and "asset%d" % i in repr(p_) and "discr" in repr(p_) and b_ is False for p_, b_ in pc)
+                if i not in loaded and not (is_src or missing):
+                    bad.append("asset %d is not indexed although it was neither compared equal to %r nor missing (path: %s)" % (
+                        i, src_name, "; ".join("%r=%s" % (p_, b_) for p_, b_ in pc if "asset%d" % i in repr(p_))[:300]))
+                if i in loaded and is_src:
+                    bad.append("the sources asset is indexed as a document")
+    rep.ob("C14-R3", "every-asset-indexed", not bad and n_paths >= 4 and n_loads >= 2, "; ".join(sorted(set(bad))[:3]) if bad else
+           "%d successfully built sessions: each asset loaded once, in order, unless it is the sources asset or missing (%d loads)" % (n_paths, n_loads),
+           facts.fn("db::Db::open_inner").site(), sample={"paths": n_paths, "loads": n_loads})
 
 
 HASH_ITER = ("::iter", "::iter_mut", "::into_iter", "::values", "::into_values", "::keys", "::into_keys", "::drain",
